@@ -59,8 +59,22 @@ func TestC15(t *testing.T) {
 	rapid.Check(t, func(t *rapid.T) {
 		sch := genSchema(t, SchemaCfg{Key: 1, Merges: true, MinCols: 1, MaxCols: 4})
 		log := &recLogger{}
+		// half of the histories run with a logger that REFUSES every 2nd or 3rd commit (it records it,
+		// then returns an error - an anonymous one, os.ErrClosed, io.ErrShortWrite, ... in rotation): the
+		// collection must keep offering it every later commit, also the other blocks of the same transaction
+		if refuse := rapid.SampledFrom([]int{0, 0, 2, 3}).Draw(t, "logger-refuses-every"); refuse > 0 {
+			log.failSeq = func(seq int) error {
+				if seq%refuse == refuse-1 {
+					return faultErrors[seq%len(faultErrors)]
+				}
+				return nil
+			}
+		}
 		ch := make(commit.Channel, 64)
 		mc := NewMachine("C15", sch, column.Options{Writer: multiLogger{log, ch}})
+		if log.failSeq != nil {
+			mc.flag("logger-refuses-some-commits")
+		}
 		defer mc.Close()
 		defer mc.Guard(t)
 		cfg := TxnCfg{Prop: "C15", MaxSteps: 10, Peeks: true, Rollback: true, FailInsert: true, PropagateInsertFailure: true, Deletes: true, Inserts: true, Merges: true, OwnUpdates: true, KeyOps: true, Direct: true,
